@@ -36,6 +36,28 @@ CLAIMS = {
         note="Trusted: TLC, the recording driver (harness/zcv/props/c17.py). The printed layout is deliberately not prescribed "
              "(the statement fixes a relation). Bounded corpus + random sampling.",
         technique="TLC trace validation of recorded round trips against the TLA+ spec ZLines (relation, not layout)"),
+    "C01": dict(
+        text="TLC explores the loader specification (ZLoadFn step function in the feed machine ZLoad) for every schema of a "
+             "generated family and every text over the schema's vocabulary up to the line bound, checking in every state that "
+             "the machine accepts exactly the texts that satisfy the declarative, counting formulation of conformance "
+             "(ZConform!Conforms) and that rejections are configuration errors; every terminal behaviour is replayed on "
+             "ZConfig.loadConfigFile against the schema rendered to XML and must be accepted/rejected (with a "
+             "ConfigurationError) exactly as the specification says.",
+        design="3 (C01), 2.1, Appendix A",
+        note="Trusted: TLC, schema rendering (checked by digest against the parsed schema object before any verdict), "
+             "reference key-type/datatype tables (harness/zcv/refconv.py). Bounded: texts <= 4 (quick) / 5 (thorough) lines "
+             "over <= 20/26 vocabulary lines per schema, 24/40 schemas; slot choice where the first claimer refuses and a "
+             "later slot would admit is marked unspecified.",
+        technique="TLA+ spec of the loader (step machine vs declarative Conforms) model-checked by TLC; every behaviour replayed on the code"),
+    "C02": dict(
+        text="Same exploration as C01 with the invariant TreeIsValueTree (the machine's tree equals the declarative "
+             "ZConform!ValueTree); for every accepted behaviour the real configuration object is projected attribute by "
+             "attribute (names, types, every declared attribute, defaults, order, maps, section datatypes) and compared with "
+             "the specification's tree, again after mutating every reachable list/dict and reloading.",
+        design="3 (C02)",
+        note="Trusted: as C01; converted values compared by repr() against reference conversions. Bounded as C01 "
+             "(12 datatype-stress schemas + family).",
+        technique="TLA+ spec of the loader (machine tree vs declarative ValueTree) model-checked by TLC; trees compared on the code"),
 }
 
 NOT_YET = "check not built yet (construction order in DESIGN.md section 8)"
